@@ -391,6 +391,8 @@ def run(ctx, res):
     inp = input_slice()
     H = Header(inp)
     outs = I.run(d, [inp])
+    from ..core import arithmetic
+    arithmetic(res, I, d)
     n_pkt = 0
     for s, k, v in outs:
         if not (k == "val" and isinstance(v, StructV) and v.variant == "Ok"):
